@@ -118,8 +118,34 @@ func runC02(c *sim.Ctx) {
 }
 
 func skipOverBufiox(c *sim.Ctx, st *sim.Stream, items []skipItem, stream []byte, src *sim.Source, facility int, co *coTenant) {
-	var r *bufiox.DefaultReader
-	c.GuardNoOOM("NewDefaultReader", func() { r = bufiox.NewDefaultReader(src) })
+	var r bufiox.Reader
+	var callerMem, callerSnap []byte
+	if st.Chance(1, 4) {
+		// bytes-backed buffered reader over caller memory (spare capacity, maybe a power of two)
+		capTotal := len(stream) + []int{0, 1, 64}[st.Choose(3)]
+		if st.Chance(1, 2) {
+			p := 1
+			for p < capTotal {
+				p <<= 1
+			}
+			capTotal = p
+		}
+		callerMem = make([]byte, len(stream), capTotal)
+		copy(callerMem, stream)
+		callerSnap = append([]byte(nil), callerMem...)
+		mcache.SimRegisterCaller(callerMem)
+		c.GuardNoOOM("NewBytesReader", func() { r = bufiox.NewBytesReader(callerMem) })
+		c.Count("cfg.reader.bytes")
+		// mark the source as fully handed out so that its accounting stays meaningful
+		src.Pos, src.Issued, src.WithErrCnt = len(stream), true, 0
+	} else {
+		c.GuardNoOOM("NewDefaultReader", func() { r = bufiox.NewDefaultReader(src) })
+	}
+	defer func() {
+		if callerMem != nil && firstDiff(callerMem, callerSnap) >= 0 {
+			c.Fail("CALLER_MODIFIED", "BytesReader", sim.F{}, "the caller's slice given to NewBytesReader was modified")
+		}
+	}()
 	var br *thrift.BufferReader
 	var sd *thrift.SkipDecoder
 	site := "Skip/BufferReader"
